@@ -16,6 +16,7 @@ import (
 	"regexp"
 	"sort"
 	"strings"
+	"sync"
 	"sync/atomic"
 	"time"
 
@@ -529,8 +530,37 @@ func mixed(c *harness.Ctx, dir, store string, uncompressed bool, want map[desync
 		return m
 	}
 	before := snap()
-	op := []string{"has-get", "http", "verify", "prune", "pull"}[rng.Intn(5)]
+	op := []string{"has-get", "http", "verify", "prune", "pull", "verify-while-other-prunes"}[rng.Intn(6)]
 	switch op {
+	case "verify-while-other-prunes":
+		// the client of the other format removes one of ITS files from a directory this client's verify is walking
+		// (at the moment this client reports an invalid chunk of its own from that directory): nothing of this
+		// client's business, its verify carries on and reports what it has to report
+		var xid desync.ChunkID
+		rng.Read(xid[:])
+		xid[2] &= 0x7f
+		sx := xid.String()
+		sy := sx[:4] + strings.Repeat("f", 60)
+		xname, yname := sx, sy+".cacnk"
+		xdata := []byte("content that does not hash to the name")
+		if !uncompressed {
+			xname, yname = sx+".cacnk", sy
+			xdata, _ = desync.Compress(xdata)
+		}
+		dsu.WriteFile(filepath.Join(store, sx[:4], xname), xdata)
+		dsu.WriteFile(filepath.Join(store, sx[:4], yname), []byte("a file of the other format"))
+		hw := &hookWriter{onFirst: func() { os.Remove(filepath.Join(store, sx[:4], yname)) }}
+		if err := own.Verify(context.Background(), 1, rng.Intn(2) == 0, hw); err != nil {
+			c.Violation("verify-failed:other-format-file-vanished", "verify of a store configured uncompressed=%v failed because a file of the other format disappeared from a directory while it was walked: %v", uncompressed, err)
+			return
+		}
+		if !strings.Contains(hw.buf.String(), sx) || strings.Contains(hw.buf.String(), sy) {
+			c.Violation("verify-reports-other-format", "verify (uncompressed=%v) reported: %s", uncompressed, hw.buf.String())
+			return
+		}
+		c.NonTrivial("mixed|%s|u%v", op, uncompressed)
+		return
+
 	case "pull":
 		// the store served over the casync protocol (`desync pull`, the remote end of an ssh:// store), its format
 		// taken from the config file of the serving side: the chunk in the store's own format arrives intact, the
@@ -692,6 +722,23 @@ func mixed(c *harness.Ctx, dir, store string, uncompressed bool, want map[desync
 		return
 	}
 	c.NonTrivial("mixed|%s|u%v", op, uncompressed)
+}
+
+// hookWriter calls onFirst when the first message is written to it.
+type hookWriter struct {
+	mu      sync.Mutex
+	buf     bytes.Buffer
+	onFirst func()
+}
+
+func (h *hookWriter) Write(p []byte) (int, error) {
+	h.mu.Lock()
+	defer h.mu.Unlock()
+	if h.onFirst != nil {
+		h.onFirst()
+		h.onFirst = nil
+	}
+	return h.buf.Write(p)
 }
 
 // fixtures: the repository's stores (written by casync / earlier desync) are read by both builds and by libzstd.
